@@ -74,6 +74,7 @@ type opJ struct {
 	Hi   int      `json:"hi,omitempty"`
 	Nb   string   `json:"nb,omitempty"` // restore: neighbour script: "" | needs | free | err | slow-needs | slow-free | slow-err | live:<db>
 	N    int      `json:"n,omitempty"`  // drain: maximum number of steps (0 = all)
+	Fail int      `json:"fail,omitempty"` // retain / step: storage fault during this operation: 1 = the Save (checkpoints file / WAL / first table of the flush) fails, 2 = a WAL delete of Save's Destroy fails
 }
 
 func decodeOps(c *hx.Case) ([]opJ, error) {
@@ -268,11 +269,23 @@ func (w *world) afterRotations(s *slot, k int) error {
 }
 
 // release lets task t run to its next point (or to its end) and waits for what must arrive.
-func (w *world) release(t *task) (handle *recovery.CheckpointHandle, err error) {
+func (w *world) release(t *task, fail int) (handle *recovery.CheckpointHandle, err error) {
 	g := t.gate
 	t.gate = nil
 	switch t.kind {
 	case "flush":
+		if t.point == "begin" && fail == 1 {
+			// the Save of the first table fails: the task returns the error, no swap, no compaction; the next queued flush starts
+			t.slot.fs.armSave("sst")
+			w.actFlush = nil
+			close(g)
+			<-t.slot.fs.fired
+			n := 0
+			if len(w.flushQ) > 0 {
+				n++
+			}
+			return nil, w.expect(n)
+		}
 		switch t.point {
 		case "begin", "swap":
 			close(g)
@@ -307,9 +320,25 @@ func (w *world) release(t *task) (handle *recovery.CheckpointHandle, err error) 
 	case "ckpt":
 		switch t.point {
 		case "walsave":
+			if fail == 1 {
+				t.slot.fs.armSave("wal")
+				close(g)
+				wait := t.slot.waits[t.id]
+				delete(t.slot.waits, t.id)
+				delete(t.slot.ckpts, t.id)
+				_, _ = wait()
+				t.slot.fs.disarm()
+				return nil, nil
+			}
 			close(g)
 			return nil, w.expect(1)
 		case "listsave":
+			if fail == 1 {
+				t.slot.fs.armSave("ck")
+			} else if fail == 2 {
+				t.slot.fs.failDelete.Store(true)
+			}
+			defer t.slot.fs.disarm()
 			close(g)
 			wait := t.slot.waits[t.id]
 			delete(t.slot.waits, t.id)
@@ -769,17 +798,27 @@ func (r *runner) slot(i int) *slot {
 }
 
 // stepTask advances one task of s and emits the corresponding model op (unless silent).
-func (r *runner) stepTask(s *slot, t *task, silent bool) error {
+func (r *runner) stepTask(s *slot, t *task, silent bool, fail int) error {
 	w := r.w
 	switch t.kind {
 	case "flush":
-		_, err := w.release(t)
+		failing := fail == 1 && t.point == "begin" && s.db.VerifMemtableCount() > 1
+		f := 0
+		if failing {
+			f = 1
+		}
+		_, err := w.release(t, f)
 		if err != nil {
 			return err
 		}
 		w.log.take()
 		if !silent {
-			r.emit(stepOut{op: fmt.Sprintf("OStepFlush %d", s.idx)})
+			if failing {
+				r.tag("fault-flush-table-save")
+				r.emit(stepOut{op: fmt.Sprintf("OStepFlushF %d", s.idx)})
+			} else {
+				r.emit(stepOut{op: fmt.Sprintf("OStepFlush %d", s.idx)})
+			}
 		}
 	case "compact":
 		from := t.point
@@ -787,7 +826,7 @@ func (r *runner) stepTask(s *slot, t *task, silent bool) error {
 		if !silent {
 			before = s.db.VerifLevelDocs()
 		}
-		_, err := w.release(t)
+		_, err := w.release(t, 0)
 		if err != nil {
 			return err
 		}
@@ -861,7 +900,11 @@ func (r *runner) stepTask(s *slot, t *task, silent bool) error {
 		r.emit(stepOut{op: fmt.Sprintf("OStepCompact %d (%s)", s.idx, res)})
 	case "ckpt":
 		id := t.id
-		h, err := w.release(t)
+		f := fail
+		if t.point == "walsave" && f != 1 {
+			f = 0
+		}
+		h, err := w.release(t, f)
 		if err != nil {
 			return err
 		}
@@ -870,7 +913,12 @@ func (r *runner) stepTask(s *slot, t *task, silent bool) error {
 			w.handles[id] = &handleRec{id: id, uri: h.URI, slot: s.idx}
 		}
 		if !silent {
-			r.emit(stepOut{op: fmt.Sprintf("OStepCkpt %d %d", s.idx, id)})
+			if f != 0 {
+				r.tag(fmt.Sprintf("fault-ckpt-%d", f))
+				r.emit(stepOut{op: fmt.Sprintf("OStepCkptF %d %d %d", s.idx, id, f)})
+			} else {
+				r.emit(stepOut{op: fmt.Sprintf("OStepCkpt %d %d", s.idx, id)})
+			}
 		}
 	}
 	return nil
@@ -885,7 +933,7 @@ func (r *runner) drain(s *slot, max int, silent bool) error {
 			}
 			return nil
 		}
-		if err := r.stepTask(s, t, silent); err != nil {
+		if err := r.stepTask(s, t, silent, 0); err != nil {
 			return err
 		}
 	}
@@ -1278,7 +1326,7 @@ func execute(c *hx.Case) (*hx.Result, error) {
 				continue
 			}
 			r.noteWork(s)
-			if err := r.stepTask(s, t, false); err != nil {
+			if err := r.stepTask(s, t, false, o.Fail); err != nil {
 				return fail(err)
 			}
 		case "drain":
@@ -1338,6 +1386,12 @@ func execute(c *hx.Case) (*hx.Result, error) {
 						ro = &readObs{Outcome: 3, Msg: fmt.Sprint(p)}
 					}
 				}()
+				if o.Fail == 1 {
+					s.fs.armSave("ck")
+				} else if o.Fail == 2 {
+					s.fs.failDelete.Store(true)
+				}
+				defer s.fs.disarm()
 				if err := s.db.UpdateRetainedCheckpoints(o.IDs); err != nil {
 					ro = &readObs{Outcome: 1, Msg: err.Error()}
 				}
@@ -1348,7 +1402,12 @@ func execute(c *hx.Case) (*hx.Result, error) {
 				ids[i] = fmt.Sprint(id)
 			}
 			r.tag("retain")
-			r.emit(stepOut{op: fmt.Sprintf("ORetain %d %s", s.idx, hx.CoqList(ids, "N")), read: ro})
+			if o.Fail == 1 || o.Fail == 2 {
+				r.tag(fmt.Sprintf("fault-retain-%d", o.Fail))
+				r.emit(stepOut{op: fmt.Sprintf("ORetainF %d %s %d", s.idx, hx.CoqList(ids, "N"), o.Fail), read: ro})
+			} else {
+				r.emit(stepOut{op: fmt.Sprintf("ORetain %d %s", s.idx, hx.CoqList(ids, "N")), read: ro})
+			}
 		case "restore":
 			if err := r.restore(o); err != nil {
 				return fail(err)
